@@ -137,6 +137,22 @@ def draw_case(data, tier):
     return {"d": d, "shape": list(shape), "torus": list(torus), "sig": sig, "batch": batch, "nlead": nlead, "steps": steps}
 
 
+# One jitted / vmapped identity shared by every call in the process: a pytree registration whose static data compare
+# equal although they differ (D, torus flags, parity) makes a later call hit the compilation cache of an earlier one.
+_SHARED_JIT = jax.jit(lambda m: m)
+_SHARED_JIT_CHAIN = jax.jit(lambda m: m.copy())
+
+
+def _flag_variants(torus):
+    """Other torus-flag tuples of the same length (all-True, all-False, complement)."""
+    d = len(torus)
+    out = []
+    for alt in ((True,) * d, (False,) * d, tuple(not t for t in torus)):
+        if alt != tuple(torus) and alt not in out:
+            out.append(alt)
+    return out
+
+
 def _blocks(mi):
     return {t: np.asarray(v) for t, v in mi.items()}
 
@@ -328,7 +344,17 @@ def run_case(case):
             if op == "copy":
                 other = cur.copy()
             elif op == "jit":
-                other = jax.jit(lambda m: m)(cur)
+                # first push same-shaped multi-images with other boundary flags through the shared jitted functions
+                for alt in _flag_variants(cur.is_torus):
+                    twin = geom.MultiImage(dict(cur.data), cur.D, alt)
+                    for fn in (_SHARED_JIT, _SHARED_JIT_CHAIN):
+                        o = fn(twin)
+                        if tuple(o.is_torus) != alt or o.D != cur.D:
+                            return result(viol("C13/jit-roundtrip/metadata", f"jit(identity) of a multi-image with is_torus={alt} returned is_torus={o.is_torus} (an earlier call used other flags)"), True, key, labels, evals)
+                other = _SHARED_JIT(cur)
+                v = _same(_SHARED_JIT_CHAIN(cur), _snap(cur), "jit-roundtrip")
+                if v:
+                    return result(v, True, key, labels, evals)
             elif op == "vmap":
                 other = jax.vmap(lambda m: m)(cur)
             else:
@@ -342,7 +368,12 @@ def run_case(case):
             blk = np.asarray(cur[t0])
             one = blk[(0,) * nl]
             gi = geom.GeometricImage(jnp.asarray(one), t0[1], d, torus)
-            for nm, other in (("jit", jax.jit(lambda g: g)(gi)), ("flatten", jax.tree_util.tree_unflatten(*reversed(jax.tree_util.tree_flatten(gi))))):
+            # same shape, other parity / other flags through the shared jitted identity first
+            for twin in [geom.GeometricImage(jnp.asarray(one), 1 - t0[1], d, torus)] + [geom.GeometricImage(jnp.asarray(one), t0[1], d, alt) for alt in _flag_variants(torus)]:
+                o = _SHARED_JIT(twin)
+                if (o.parity, tuple(o.is_torus), o.D) != (twin.parity, tuple(twin.is_torus), d):
+                    return result(viol("C13/gi-pytree", f"shared jit: image with parity={twin.parity} is_torus={twin.is_torus} came back as parity={o.parity} is_torus={o.is_torus}"), True, key, labels, evals)
+            for nm, other in (("jit", _SHARED_JIT(gi)), ("flatten", jax.tree_util.tree_unflatten(*reversed(jax.tree_util.tree_flatten(gi))))):
                 if (other.D, other.k, other.parity, tuple(other.is_torus), tuple(other.spatial_dims)) != (d, t0[0], t0[1], torus, shape) or not exact_equal(np.asarray(other.data), one):
                     return result(viol("C13/gi-pytree", f"{nm}: {other}"), True, key, labels, evals)
         else:
